@@ -105,7 +105,9 @@ def violate(rng, A, p, kind, algd):
     elif kind == "population":
         if name not in ("NLOPT_GN_CRS2_LM",):
             return None
-        q["pop"] = 1
+        if n < 2:
+            return None
+        q["pop"] = rng.choice([1, n - 1, n, n])          # CRS needs at least n + 1 points (a simplex)
     q["_kind"] = kind
     return q
 
@@ -142,6 +144,11 @@ def run(ctx):
                     q = violate(rng, A, base, kind, ctx.alg)
                     if q:
                         ps.append(q)
+        for _ in range(12 if ctx.thorough else 6):       # population = n, n - 1, 1 for several n
+            base = problems.gen_problem(rng, A, alg_name="NLOPT_GN_CRS2_LM", box="finite", n=rng.choice([2, 3, 4]))
+            q = violate(rng, A, base, "population", ctx.alg)
+            if q:
+                ps.append(q)
         for _ in range(12 if ctx.thorough else 5):       # both variants (n+1 scalars | one vector of dimension > n), several n
             base = problems.gen_problem(rng, A, alg_name="NLOPT_LD_SLSQP", box="finite")
             q = violate(rng, A, base, "too_many_eq", ctx.alg)
